@@ -57,5 +57,17 @@ RowWidth == (alg = "tempo" /\ step >= 1) =>
                LET cur == step IN
                (IF K = Unl THEN cur ELSE Min2(cur, K + 1)) = net.mps - 1
 
+\* the restated operators that the proof system works on (NetShapeProof.tla) are the operators used here
+P == INSTANCE NetShapeProof
+SameAsOps ==
+    CASE alg = "tempo" -> /\ TempoStep(net, step + 1, K, "none") = [mps |-> P!StepMps(net.mps, net.mpo, step + 1, K), mpo |-> P!StepMpo(net.mpo, K)]
+                          /\ TempoClosed(step, K) = [mps |-> P!ClosedMps(step, K), mpo |-> P!ClosedMpo(step, K)]
+      [] alg = "pt" -> /\ PtStep(net, step + 1, N, K, "none").mps = P!PtStepMps(net.mps, step + 1, N, K)
+                       /\ PtStep(net, step + 1, N, K, "none").mpo = P!PtStepMpo(net.mpo, step + 1, N, K)
+                       /\ PtClosed(step, N, K).mps = P!PtClosedMps(step, N, K)
+                       /\ PtClosed(step, N, K).mpo = P!PtClosedMpo(step, N, K)
+      [] OTHER -> /\ GibbsStep(net, K).mps = P!GibbsStepMps(net.mps, K)
+                  /\ GibbsClosed(step, K).mps = P!GibbsClosedMps(step, K)
+
 EmitCase == Emit => PrintT("CASE " \o ToJson([alg |-> alg, K |-> K, N |-> N, step |-> step, net |-> net]))
 =============================================================================
